@@ -2,6 +2,7 @@ package core
 
 import (
 	"go/token"
+	"go/types"
 
 	"golang.org/x/tools/go/ssa"
 )
@@ -127,6 +128,12 @@ func phiCondClass(pred, s *ssa.BasicBlock) int {
 			continue
 		}
 		break
+	}
+	if b, ok := v.(*ssa.BinOp); ok && (b.Op == token.EQL || b.Op == token.NEQ) {
+		// `if φ ==/!= nil` with φ a φ-node of s (what a helper returning (v, err), inlined under its
+		// caller's `if err != nil`, leaves behind): decided when the operand entering from pred is the
+		// constant nil, or a value found non-nil on every path to pred
+		return nilPhiCondClass(pred, s, b, flip)
 	}
 	phi, ok := v.(*ssa.Phi)
 	if !ok || phi.Block() != s {
@@ -481,4 +488,94 @@ func ConcreteCut(fn *ssa.Function, isVar func(ssa.Value) bool, c int64) func(Edg
 		}
 	}
 	return func(e Edge) bool { return dead[e] }
+}
+
+func isNilConst(v ssa.Value) bool {
+	c, ok := v.(*ssa.Const)
+	return ok && c.Value == nil && !isBasicType(c.Type())
+}
+
+func isBasicType(t types.Type) bool {
+	_, ok := t.Underlying().(*types.Basic)
+	return ok
+}
+
+func nilPhiCondClass(pred, s *ssa.BasicBlock, b *ssa.BinOp, flip bool) int {
+	var phi *ssa.Phi
+	switch {
+	case isNilConst(b.Y):
+		phi, _ = b.X.(*ssa.Phi)
+	case isNilConst(b.X):
+		phi, _ = b.Y.(*ssa.Phi)
+	}
+	if phi == nil || phi.Block() != s {
+		return 0
+	}
+	idx, n := -1, 0
+	for i, p := range s.Preds {
+		if p == pred {
+			idx = i
+			n++
+		}
+	}
+	if idx < 0 || n != 1 {
+		return 0
+	}
+	op := phi.Edges[idx]
+	var isNil bool
+	switch {
+	case isNilConst(op):
+		isNil = true
+	case knownNonNilAt(op, pred):
+		isNil = false
+	default:
+		return 0
+	}
+	val := (b.Op == token.EQL) == isNil
+	if flip {
+		val = !val
+	}
+	if val {
+		return 1
+	}
+	return 2
+}
+
+// knownNonNilAt: some `if v != nil` / `if v == nil` has a non-nil successor that is entered only
+// through that test and dominates blk (an SSA value never changes, so v is non-nil in blk).
+func knownNonNilAt(v ssa.Value, blk *ssa.BasicBlock) bool {
+	if _, ok := v.(*ssa.Const); ok {
+		return false
+	}
+	refs := v.Referrers()
+	if refs == nil {
+		return false
+	}
+	for _, r := range *refs {
+		b, ok := r.(*ssa.BinOp)
+		if !ok || (b.Op != token.EQL && b.Op != token.NEQ) {
+			continue
+		}
+		if !(b.X == v && isNilConst(b.Y)) && !(b.Y == v && isNilConst(b.X)) {
+			continue
+		}
+		brefs := b.Referrers()
+		if brefs == nil {
+			continue
+		}
+		for _, br := range *brefs {
+			iff, ok := br.(*ssa.If)
+			if !ok || len(iff.Block().Succs) != 2 {
+				continue
+			}
+			succ := iff.Block().Succs[0]
+			if b.Op == token.EQL {
+				succ = iff.Block().Succs[1]
+			}
+			if len(succ.Preds) == 1 && succ != iff.Block() && (succ == blk || succ.Dominates(blk)) {
+				return true
+			}
+		}
+	}
+	return false
 }
